@@ -243,6 +243,8 @@ func VerifPosIn(ln, col, pos int, set []token.LnColPos) bool {
 // ---------------------------------------------------------------------------------
 
 type VerifGen struct {
+	// EmptyAfter: the block that ends just before the placed statement has an empty body
+	EmptyAfter bool
 	n   int // position counter: every position handed out is distinct
 	rot int // filler rotation
 }
@@ -766,7 +768,9 @@ func (g *VerifGen) Nest(path []int, after bool, st *Node) Stmts {
 	var cur Stmts
 	if after && last >= 0 {
 		body := Stmts{g.FillStmt()}
-		if path[last] == VerifIn_For || path[last] == VerifIn_ForIn {
+		if g.EmptyAfter {
+			body = Stmts{}
+		} else if path[last] == VerifIn_For || path[last] == VerifIn_ForIn {
 			body = append(body, WrapIfelseStmt(&IfelseStmt{IfList: IfList{
 				{Condition: g.Fill(), Block: g.Block(g.Continue()), Start: g.P()}}}), g.Break())
 		}
